@@ -4,6 +4,8 @@
 //                       back as the engine's total force in the same-step convention
 //   hidej name          enable the feature hide_Jacobian_force of a variable, exactly as the ABF option
 //                       hideJacobian does (colvarbias_abf.cpp: colvars[i]->enable(f_cv_hide_Jacobian))
+//   rot name            print "ROT name i type m00..m22 jd" for every component of the variable: the optimal rotation
+//                       matrix of its first atom group and its Jacobian derivative (inputs of the model for rotated frames)
 //   fj                  print "FJ name <hex>" (Jacobian force kT*jd held by each variable) and
 //                       "FOLD name <hex>" (f_old), read from the variable's private members
 #include <cstdio>
@@ -26,6 +28,7 @@
 #define private public
 #define protected public
 #include "vsim.h"
+#include "colvarcomp.h"
 
 struct c07_session : public vsim_session {
   c07_session(std::ostream *o) : vsim_session(o) {}
@@ -49,6 +52,21 @@ struct c07_session : public vsim_session {
       int err = c ? c->enable(colvardeps::f_cv_hide_Jacobian) : COLVARS_ERROR;
       o << "HIDEJ err=" << vs_errclass(err | cvm::get_error()) << "\n";
       cvm::clear_error();
+      return true;
+    }
+    if (cmd == "rot") {
+      // rotation matrix of the first atom group and Jacobian derivative of every component of a variable
+      colvar *c = cvm::colvar_by_name(a[0]);
+      if (c) {
+        for (size_t i = 0; i < c->cvcs.size(); i++) {
+          cvm::rmatrix const m = c->cvcs[i]->atom_groups.size() ? c->cvcs[i]->atom_groups[0]->rot.matrix() : cvm::rmatrix();
+          o << "ROT " << c->name << " " << i << " " << c->cvcs[i]->function_type();
+          o << " " << vs_hex(m.xx) << " " << vs_hex(m.xy) << " " << vs_hex(m.xz)
+            << " " << vs_hex(m.yx) << " " << vs_hex(m.yy) << " " << vs_hex(m.yz)
+            << " " << vs_hex(m.zx) << " " << vs_hex(m.zy) << " " << vs_hex(m.zz)
+            << " " << vs_hex(c->cvcs[i]->Jacobian_derivative().real_value) << "\n";
+        }
+      }
       return true;
     }
     if (cmd == "fj") {
